@@ -307,6 +307,11 @@ impl NodeIdxIter {
     { unimplemented!() }
 }
 
+/// `cfg!(debug_assertions)` of the build: unconstrained, so code with `debug_assert!` (rule R26) is verified for both
+/// profiles - its condition is evaluated only where this is true.
+#[verifier::external_body]
+pub fn vx_debug_assertions() -> (b: bool) { unimplemented!() }
+
 // ASSUMED (std): `<Vec<T> as AsRef<[T]>>::as_ref` is the slice of the same elements
 /// std::mem::take: moves the value out and leaves `T::default()` behind (what the default IS is not specified here)
 pub assume_specification<T: std::default::Default> [std::mem::take] (x: &mut T) -> (r: T)
